@@ -161,6 +161,8 @@ def reparse_kinds(sheet):
     css_parser.ser.prefs.keepEmptyRules = True
     try:
         txt = sheet.cssText
+        # rules the serializer prints nothing for (an @page without declarations and margin rules) are not expected back
+        shown = [r.type for r in sheet.cssRules if r.cssText]
     except Exception as e:  # noqa
         return ["SERIALIZE-RAISED", type(e).__name__]
     finally:
@@ -168,7 +170,7 @@ def reparse_kinds(sheet):
         css_parser.ser.prefs.keepEmptyRules = oldkeep
     try:
         p = css_parser.CSSParser(fetcher=nofetch, raiseExceptions=False)
-        return [r.type for r in p.parseString(txt).cssRules]
+        return [shown, [r.type for r in p.parseString(txt).cssRules]]
     except Exception as e:  # noqa
         return ["REPARSE-RAISED", type(e).__name__]
     finally:
@@ -258,6 +260,11 @@ def enc_result(res):
     return "CRASH:" + ":".join(map(str, res[1:]))
 
 
+def distinct_ns(st):
+    ns = [r for r in st if r[0] == 10]
+    return len({r[1] for r in ns}) == len(ns) and len({r[2] for r in ns}) == len(ns)
+
+
 def enc_state(st):
     return ";".join(enc_item(r) for r in st)
 
@@ -342,9 +349,11 @@ def oracle(rx, ops, out):
             yield ("rejected call changed the rule list: %s -> %s" % (op_label(op), res[1] if res[0] != "ret" else "None"),
                    dict(hist, before=prev, after=st), json.dumps([r[0] for r in prev]))
         if rp is not None and not v:
-            if rp != [r[0] for r in st]:
+            if len(rp) != 2 or not isinstance(rp[0], list):
+                yield ("cssText could not be serialised / re-parsed after %s: %s" % (op_label(op), rp), hist, str(rp))
+            elif rp[0] != rp[1]:
                 yield ("cssText does not re-parse to the same rules after %s: has %s, re-parsed %s" % (
-                    op_label(op), [r[0] for r in st], rp), hist, json.dumps([r[0] for r in st]))
+                    op_label(op), rp[0], rp[1]), hist, json.dumps(rp[0]))
         prev = st
 
 
@@ -525,10 +534,11 @@ def run(ctx):
                     d = "result: implementation %s, model %s" % (enc_result(res), mres)
                 elif enc_state(st) != mstate:
                     d = "state: implementation %s, model %s" % (enc_state(st), mstate)
-                elif rp is not None and mvalid == "1" and "+".join(map(str, rp)) != macc:
-                    d = "re-parse: implementation %s, model accept_kinds %s" % (rp, macc)
-                elif rp is not None and mvalid == "1" and [r[0] for r in st] != rp:
-                    d = "model calls the state valid but the implementation re-parses %s" % (rp,)
+                elif rp is not None and len(rp) == 2 and rp[0] == [r[0] for r in st] and distinct_ns(st):
+                    if "+".join(map(str, rp[1])) != macc:
+                        d = "re-parse: implementation %s, model accept_kinds %s" % (rp[1], macc)
+                    elif mvalid == "1" and rp[0] != rp[1]:
+                        d = "model calls the state valid but the implementation re-parses %s" % (rp[1],)
                 if d:
                     mism.append(({"rx": rx, "ops": ops[:n + 1]}, d))
                     break
@@ -540,6 +550,7 @@ def run(ctx):
             states.add(enc_state(st))
         for what, wit, sig in oracle(rx, ops, im):
             ctx.violation(what, wit, sig_text=sig)
+            break       # the rest of a history that already failed is not judged
     if mism:
         ctx.broken("correspondence", "CSSStyleSheet edit operations vs CssV.Order.step",
                    "%d histories differ; first: %s" % (len(mism), json.dumps(mism[:3])))
